@@ -78,11 +78,13 @@ func (fc *FnCtx) Translate() (err error) {
 	// loop write sets: a probe run of the same function tells which state names each block writes
 	if fc.probe {
 		fc.blockWrites = map[int]*NameSet{}
+		fc.blockWritesAll = map[int]*NameSet{}
 		for _, li := range fc.loops {
 			li.writes = &NameSet{All: true}
 		}
 	} else {
-		pw := fc.eng.probeWrites(fc.fn)
+		fc.eng.probeWrites(fc.fn)
+		pw := fc.eng.probesAll[fc.fn]
 		delete(fc.eng.pendingTargets, fc.fn)
 		fc.anchorOrd = map[string]int{}
 		for _, li := range fc.loops {
@@ -268,7 +270,7 @@ func (fc *FnCtx) Translate() (err error) {
 	}
 	// every anchored clause must have matched a program point
 	if fc.c != nil && !fc.probe {
-		for _, a := range append(append([]*AnchorClause{}, fc.c.Asserts...), fc.c.GhostUpd...) {
+		for _, a := range append(append(append([]*AnchorClause{}, fc.c.Asserts...), fc.c.GhostUpd...), fc.c.Assumes...) {
 			if !fc.anchorsHit[a] {
 				var seen []string
 				for s := range fc.anchorsSeen {
@@ -448,6 +450,13 @@ func (fc *FnCtx) instr(b *ssa.BasicBlock, idx int, in ssa.Instruction) {
 	case *ssa.MakeChan:
 		ref := fc.allocRef()
 		fc.setVal(x, Val{T: x.Type(), L: []string{ref}})
+		name := fc.chanClass(x)
+		fc.anchorArgs = nil
+		fc.anchorBefore("make "+name, x.Pos())
+		res := fc.vals[x]
+		fc.anchorRes = &res
+		fc.anchorAfter("make "+name, x.Pos())
+		fc.anchorRes = nil
 	case *ssa.MakeClosure:
 		ref := fc.allocRef()
 		fc.setVal(x, Val{T: x.Type(), L: []string{ref}})
